@@ -51,3 +51,18 @@ def bse():
     assert os.path.realpath(basis_set_exchange.__file__).startswith(os.path.realpath(paths.REPO)), \
         'implementation not imported from ' + paths.REPO
     return basis_set_exchange
+
+
+def call_printed(f, *args, **kw):
+    """like call, but also returns what the implementation printed to stdout while it ran: (result, text)"""
+    import io
+    old = sys.stdout
+    buf = io.StringIO()
+    sys.stdout = buf
+    try:
+        r = ('ok', f(*args, **kw))
+    except Exception as e:  # noqa
+        r = ('error', err_class(e))
+    finally:
+        sys.stdout = old
+    return r, buf.getvalue()
